@@ -470,6 +470,17 @@ def bind_native_fun(environment, func, alias=None):
     add(environment, func, alias)
 
 
+def arg_name(func, index, pos):
+    names = func.getArgNames()
+    if index >= len(names):
+        raise CklRuntimeError(
+            ValueString("ERROR"),
+            f"Function {func.name} must accept at least {index + 1} argument(s)",
+            pos,
+        )
+    return names[index]
+
+
 def get_os_version():
     return platform.release()
 
@@ -1735,7 +1746,7 @@ class FuncFind(ValueFunc):
                 elem = lst[idx]
                 if key:
                     elem = key.execute(
-                        Args(pos).addArg(key.getArgNames()[0], elem), env, pos
+                        Args(pos).addArg(arg_name(key, 0, pos), elem), env, pos
                     )
                 if elem == item:
                     return ValueInt(idx)
@@ -1797,7 +1808,7 @@ class FuncFindLast(ValueFunc):
                 elem = lst[idx]
                 if key:
                     elem = key.execute(
-                        Args(pos).addArg(key.getArgNames()[0], elem), env, pos
+                        Args(pos).addArg(arg_name(key, 0, pos), elem), env, pos
                     )
                 if elem == item:
                     return ValueInt(idx)
@@ -3170,7 +3181,7 @@ class FuncProcessLines(ValueFunc):
             inp = inparg.asInput()
 
             def cb(line):
-                args = Args(pos).addArg(callback.getArgNames()[0], line)
+                args = Args(pos).addArg(arg_name(callback, 0, pos), line)
                 return callback.execute(args, env, pos)
 
             return ValueInt(inp.process(cb))
@@ -3178,7 +3189,7 @@ class FuncProcessLines(ValueFunc):
             lst = inparg.asList().value
             for element in lst:
                 args = Args(pos).addArg(
-                    callback.getArgNames()[0], element.asString()
+                    arg_name(callback, 0, pos), element.asString()
                 )
                 callback.execute(args, env, pos)
             return ValueInt(len(lst))
@@ -3701,16 +3712,16 @@ class FuncSorted(ValueFunc):
         result = lst.value[:]
         for i in range(len(result)):
             v = key.execute(
-                Args(pos).addArg(key.getArgNames()[0], result[i]), env, pos
+                Args(pos).addArg(arg_name(key, 0, pos), result[i]), env, pos
             )
             for j in range(i - 1, -1, -1):
                 v2 = key.execute(
-                    Args(pos).addArg(key.getArgNames()[0], result[j]), env, pos
+                    Args(pos).addArg(arg_name(key, 0, pos), result[j]), env, pos
                 )
                 cmpargs = (
                     Args(pos)
-                    .addArg(cmp.getArgNames()[0], v)
-                    .addArg(cmp.getArgNames()[1], v2)
+                    .addArg(arg_name(cmp, 0, pos), v)
+                    .addArg(arg_name(cmp, 1, pos), v2)
                 )
                 comparison = cmp.execute(cmpargs, env, pos).value
                 if comparison < 0:
